@@ -1337,8 +1337,15 @@ class Engine(object):
       # Reverting may re-create formula columns (e.g. undoing a RemoveColumn), which come back
       # empty and marked dirty. Recompute them now, so that the engine again matches what is
       # already stored outside the sandbox, rather than reporting these values as changes made
-      # by whichever call comes next.
+      # by whichever call comes next. Data columns with trigger formulas are different: they were
+      # settled before this call and their values have just been restored, so the revert must not
+      # count as a change that fires them.
       try:
+        for node in list(self.recompute_map):
+          table = self.tables.get(node.table_id)
+          col = table.all_columns.get(node.col_id) if table else None
+          if col is not None and not col.is_formula():
+            self.recompute_map.pop(node)
         self._bring_all_up_to_date()
       except Exception:
         log.error("Error recomputing after revert on failure: %s", traceback.format_exc())
